@@ -390,6 +390,7 @@ def steps_enabled(nlive, shape, kind, tier):
         out.append(('const', '*', i, -2))
         out.append(('const', '/', i, -0.5))
         out.append(('const', '+', i, 3))
+        out.append(('const', '-', i, 1.5))
         out.append(('copy', i))
         if shape != ():
             out.append(('mask', i, 0))
@@ -420,6 +421,13 @@ def compare_ref(dset, ref):
         if np.any(extra & ~undefined):
             probs.append(('mask', f'mask {gmask.tolist()} hides cells that are neither masked by the user nor undefined'))
         sel = sel & ~gmask
+    # cells hidden by the user stay hidden in the error as well as in the value (Dataset.mask() hides both): an error array that
+    # lost its mask exposes the numbers stored under it
+    if rmask is not None and rmask.any():
+        emask = np.ma.getmaskarray(dset.error) if isinstance(dset.error, np.ma.MaskedArray) else np.zeros(np.shape(gerr), bool)
+        if np.shape(emask) == np.shape(rmask) and np.any(rmask & ~emask):
+            probs.append(('error-mask', f'error mask {emask.tolist()} lost cells of the mask {rmask.tolist()} (value mask '
+                                        f'{None if gmask is None else gmask.tolist()})'))
     with np.errstate(all='ignore'):
         for name, got, exp in (('value', gval, ref.value), ('error', gerr, ref.error)):
             got, exp = np.asarray(got, dtype=float)[sel], np.asarray(exp, dtype=float)[sel]
